@@ -36,7 +36,7 @@ func (c ctxCase) String() string {
 	return fmt.Sprintf("ctxlock{workers=%d ops=[%s]}", c.Workers, strings.Join(p, " "))
 }
 
-type ctxOutcome struct{ blockedThenGranted, cancelledWaiter, preCancelled bool }
+type ctxOutcome struct{ blockedThenGranted, cancelledWaiter, preCancelled, cancelRacedGrant bool }
 
 func runCtxLock(t *testing.T, c ctxCase) (out ctxOutcome, err error) {
 	var errs vk.Errs
@@ -153,6 +153,48 @@ func runCtxLock(t *testing.T, c ctxCase) (out ctxOutcome, err error) {
 				})
 				waitSettle()
 				ws.returned(w)
+			case "unlock+cancel":
+				// The holder releases and, at the same instant, the context of a waiter ends (no settle in between):
+				// the waiter either acquires the lock or reports an error - and then must hold nothing.
+				if ws.ws[w].busy || s.holding == "" {
+					continue
+				}
+				victim := -1
+				for i, o2 := range st {
+					if o2.waiting != "" && !ws.returned(i) {
+						victim = i
+					}
+				}
+				write := s.holding == "w"
+				s.holding = ""
+				release := func() {
+					// released by the controller itself (the lock is not tied to the acquiring goroutine), so that the
+					// release and the cancellation really are back to back
+					mon.exit(0, write)
+					if write {
+						l.Unlock()
+					} else {
+						l.RUnlock()
+					}
+				}
+				if victim >= 0 && o.Pre {
+					st[victim].cancel()
+					release()
+				} else {
+					release()
+					if victim >= 0 {
+						st[victim].cancel()
+					}
+				}
+				if victim >= 0 {
+					out.cancelledWaiter = true
+					out.cancelRacedGrant = true
+				}
+				waitSettle()
+				if victim >= 0 && !ws.returned(victim) {
+					errs.Failf("after %s: the waiter w%d whose context ended has not returned", step, victim)
+					return
+				}
 			case "cancel":
 				if s.waiting == "" {
 					continue
@@ -227,7 +269,7 @@ func runCtxLock(t *testing.T, c ctxCase) (out ctxOutcome, err error) {
 
 func TestContextLock(t *testing.T) {
 	sec := vk.Sec("ContextLock")
-	vk.Check(t, 8000, 300000, func(rt *rapid.T) {
+	vk.Check(t, 12000, 4000000, func(rt *rapid.T) {
 		c := ctxCase{Workers: rapid.IntRange(2, 6).Draw(rt, "workers")}
 		n := rapid.IntRange(1, 30).Draw(rt, "nops")
 		for i := 0; i < n; i++ {
@@ -237,8 +279,10 @@ func TestContextLock(t *testing.T) {
 				c.Ops = append(c.Ops, cop{Kind: "lock", W: w, Pre: rapid.IntRange(0, 5).Draw(rt, "pre") == 0})
 			case k <= 4:
 				c.Ops = append(c.Ops, cop{Kind: "rlock", W: w, Pre: rapid.IntRange(0, 5).Draw(rt, "pre") == 0})
-			case k <= 7:
+			case k <= 6:
 				c.Ops = append(c.Ops, cop{Kind: "unlock", W: w})
+			case k == 7:
+				c.Ops = append(c.Ops, cop{Kind: "unlock+cancel", W: w, Pre: rapid.IntRange(0, 3).Draw(rt, "cancelFirst") == 0})
 			default:
 				c.Ops = append(c.Ops, cop{Kind: "cancel", W: w})
 			}
@@ -253,6 +297,9 @@ func TestContextLock(t *testing.T) {
 		}
 		if out.preCancelled {
 			cls = append(cls, "ctxlock.cancelled-before-call")
+		}
+		if out.cancelRacedGrant {
+			cls = append(cls, "ctxlock.cancel-at-the-instant-of-release")
 		}
 		sec.Case(out.blockedThenGranted || out.cancelledWaiter, vk.FP(c.String()), cls...)
 		sec.Sample(func() any { return c.String() })
